@@ -23,9 +23,25 @@ var profC05 = Profile{
 	Fillers: []string{"bar", "tag", "nop", "spinner"}, LateAdd: true, Cancel: 15, Pty: 20, PtyRowsMax: 8, Faults: 12,
 }
 
+// profC05Conc: concurrent adders and updaters while render cycles run; judged by
+// history invariants only (no exact prediction).
+var profC05Conc = ConcProfile{
+	Profile: Profile{
+		MaxBars: 9, MinBars: 2, Refresh: []string{"autort", "autoinj", "manual"}, QLens: []int{-1, 0, 1, -2},
+		Pop: 25, Prio: true, Text: 1, Rm: 25, NoPop: 15, AbortW: 2, Ext: 10, Notifier: 100,
+		SyncDecors: 1, PlainDecors: 1, Fillers: []string{"tag", "bar"},
+	},
+	MaxBlocks: 4, MaxBlockOps: 10, Pars: 2, CancelIn: 0, PerturbMax: 2, HoldPct: 30, SyncPct: 40,
+}
+
 func genC05(t *rapid.T) interface{} {
-	sc := genScenario(t, &profC05)
 	excludedKnown = 0
+	if rapid.IntRange(0, 3).Draw(t, "concurrent") == 0 {
+		sc := genConcurrent(t, &profC05Conc)
+		vstat.Excluded(excludedKnown)
+		return sc
+	}
+	sc := genScenario(t, &profC05)
 	if sc.Cfg.Refresh == "manual" {
 		excludedKnown += int64(repairQueue(sc))
 	}
@@ -131,6 +147,67 @@ func runC05(ci interface{}) Result {
 	if tr.Hang != nil {
 		r.Inconclusive = true
 		return r
+	}
+	if hasPar(sc) {
+		r.Classes = append(r.Classes, "concurrent-adders")
+		// bars nobody ever updates or aborts stay in the container for the whole
+		// program: once their Add has returned, every later cycle must draw them
+		touched := map[int]bool{}
+		var walk func([]engine.Step)
+		walk = func(sts []engine.Step) {
+			for _, st := range sts {
+				switch st.Op {
+				case "incr", "setcur", "settotal", "etc", "abort":
+					touched[st.Bar] = true
+				}
+				for _, blk := range st.Par {
+					walk(blk)
+				}
+			}
+		}
+		walk(sc.Steps)
+		addRet := map[int]int64{}
+		for _, a := range tr.Adds {
+			if a.Err == nil {
+				addRet[a.Bar] = a.RetSeq
+			}
+		}
+		var begins []int64
+		for _, e := range tr.Events {
+			if e.Point == "render.begin" {
+				begins = append(begins, e.Seq)
+			}
+		}
+		progEnd := tr.StepSeqLast()
+		checked := 0
+		for k, f := range frames {
+			if f.Seq <= 0 || f.Seq >= progEnd || mayClip {
+				continue
+			}
+			// the cycle this chunk belongs to: the last render.begin before it
+			var begin int64 = -1
+			for _, b := range begins {
+				if b < f.Seq {
+					begin = b
+				}
+			}
+			if begin < 0 {
+				continue
+			}
+			for bar, ret := range addRet {
+				if touched[bar] || sc.Bars[bar].QueueAfter >= 0 || ret >= begin {
+					continue
+				}
+				checked++
+				if f.Count(bar) != 1 {
+					r.Err, r.Kind = fmt.Errorf("bar %d was added (Add returned at event %d) before render cycle began (event %d) and is never updated, but frame %d draws it %d times: %q", bar, ret, begin, k, f.Count(bar), f.Raw), "missing-in-cycle"
+					return r
+				}
+			}
+		}
+		if checked > 0 {
+			r.Classes = append(r.Classes, "add-before-cycle-checked")
+		}
 	}
 	exact := sim.OK && sc.Cfg.Width == 0
 	if sc.Cfg.QueueLen >= 0 && sc.Cfg.QueueLen < len(sc.Bars) {
